@@ -26,35 +26,44 @@ Section Durable.
 
   (** a history: operations and reopen points (in-process reopen or process restart: both discard
       everything but the disk; the id candidates of later deliveries are inputs of those operations) *)
-  Inductive item := IOp (o : op) | IReopen.
+  Inductive item := IOp (o : op) | IReopen | IVisit.
 
   Definition run_item (d : disk) (it : item) : disk :=
-    match it with IOp o => exec o d | IReopen => d end.
+    match it with IOp o => exec o d | IReopen => d | IVisit => d end.
+
+  (** what a client observes: the result of an operation together with the whole disk after it (hence
+      every listing and content), and what a VisitMailboxes walk — the retention scanner's view —
+      returns: it is computed from the disk alone *)
+  Inductive obs :=
+  | ObsOp (r : result) (d : disk)
+  | ObsVisit (v : option (list (list (str * meta * option str)))).
 
   Definition run_items (d : disk) (its : list item) : disk := fold_left run_item its d.
 
   (** everything a client can observe along the history: the result of each operation and, after each
       item, the whole disk (hence every listing, every content, the visit walk) *)
-  Fixpoint observations (d : disk) (its : list item) : list (option result * disk) :=
+  Fixpoint observations (d : disk) (its : list item) : list obs :=
     match its with
     | [] => []
-    | IOp o :: r => (Some (result_of o d), exec o d) :: observations (exec o d) r
+    | IOp o :: r => ObsOp (result_of o d) (exec o d) :: observations (exec o d) r
     | IReopen :: r => observations d r
+    | IVisit :: r => ObsVisit (FileDisk.visit dec d) :: observations d r
     end.
 
   Definition strip (its : list item) : list item :=
-    filter (fun it => match it with IOp _ => true | IReopen => false end) its.
+    filter (fun it => match it with IReopen => false | _ => true end) its.
 
   Theorem reopen_transparent its : forall d,
     run_items d its = run_items d (strip its) /\ observations d its = observations d (strip its).
   Proof.
-    induction its as [|[o|] r IH]; intros d; simpl; auto.
-    destruct (IH (exec o d)) as [A B]. split; auto. f_equal; auto.
+    induction its as [|[o| |] r IH]; intros d; simpl; auto.
+    - destruct (IH (exec o d)) as [A B]. split; auto. f_equal; auto.
+    - destruct (IH d) as [A B]. split; auto. f_equal; auto.
   Qed.
 
   Lemma run_items_reach its : forall d, reach d -> reach (run_items d its).
   Proof.
-    induction its as [|[o|] r IH]; intros d Hr; simpl; auto.
+    induction its as [|[o| |] r IH]; intros d Hr; simpl; auto.
     apply IH. apply exec_reach; auto.
   Qed.
 
@@ -158,14 +167,14 @@ Section Durable.
   Fixpoint never_reissued (id h : str) (d : disk) (its : list item) : Prop :=
     match its with
     | [] => True
-    | IReopen :: r => never_reissued id h d r
+    | IReopen :: r | IVisit :: r => never_reissued id h d r
     | IOp o :: r => ~ (h = mailbox_of o /\ result_of o d = RId id) /\ never_reissued id h (exec o d) r
     end.
 
   Lemma gone_stays its : forall d id h,
     reach d -> ~ In id (view_ids d h) -> never_reissued id h d its -> ~ In id (view_ids (run_items d its) h).
   Proof.
-    induction its as [|[o|] r IH]; intros d id h Hr Hg Hn; simpl in *; auto.
+    induction its as [|[o| |] r IH]; intros d id h Hr Hg Hn; simpl in *; auto.
     destruct Hn as [Hn1 Hn2]. apply IH; auto.
     - apply exec_reach; auto.
     - intros Hin. destruct (ids_grow_only_by_add d o h id Hr Hin); auto.
@@ -197,7 +206,7 @@ Section Durable.
 
   Lemma never_generated_reissued id its : never_generated id its -> forall h d, never_reissued id h d its.
   Proof.
-    induction its as [|[o|] r IH]; intros Hn h d; simpl; auto.
+    induction its as [|[o| |] r IH]; intros Hn h d; simpl; auto.
     - split.
       + intros [_ Hres]. specialize (Hn o (or_introl eq_refl)).
         unfold FileDisk.result_of in Hres.
@@ -210,6 +219,7 @@ Section Durable.
         * discriminate.
       + apply IH. intros o' Ho'. apply Hn. right; auto.
     - apply IH. intros o' Ho'. apply Hn. right; auto.
+    - apply IH. intros o' Ho'. apply Hn. right; auto.
   Qed.
 
   Theorem removed_stay_gone_one_incarnation d mb id its :
@@ -219,3 +229,14 @@ Section Durable.
     intros Hr Hn. apply (proj1 (removed_stay_gone d mb id its Hr)). apply never_generated_reissued; auto.
   Qed.
 End Durable.
+
+(** NOT PROVED (kept visible; listed in lib/props/c10.py NOT_PROVED): the walk is complete — every
+    non-empty mailbox that can be listed by name is among the mailboxes VisitMailboxes yields. It needs one
+    more disk invariant (every file's three parent directories exist) carried through all step lemmas.
+    The correspondence run samples it: every `v` operation of a C10 history compares the real walk with
+    the set of non-empty mailboxes of the ordered-map oracle. *)
+Definition visit_complete_stmt : Prop :=
+  forall (enc : index -> str) (dec : str -> option index), (forall i, dec (enc i) = Some i) ->
+  forall (hash : str -> str) (cap : nat) (d : disk) (mb : str) v,
+    reach enc dec hash cap d -> view dec d (hash mb) = Some v -> v <> [] ->
+    exists vs, visit dec d = Some vs /\ In v vs.
